@@ -139,9 +139,12 @@ def run_task(task):
         else:
             from .libfs import FsIntrinsics
             prog = _STATE['prog']
-            con = C.CONTRACTS[name]
+            con = C.VERIFY[name]
+            key = name
+            name = con.target
             eng = Engine(prog, C.CONTRACTS, C.FIELDS, FsIntrinsics(), [])
             eng.GHOST_SORTS = C.GHOSTS
+            eng.variant = getattr(con, 'variant', None)
             fi = prog.funcs.get(name)
             if fi is None:
                 out['unsupported'] = 'function %s not found in /repo' % name
@@ -151,7 +154,7 @@ def run_task(task):
             axs, assumed, used = resolve_axioms(con.lemmas)
             out['assumed'], out['lemmas_used'] = assumed, used
             try:
-                obls = eng.verify(name)
+                obls = eng.verify(name, con)
             except Unsupported as e:
                 out['unsupported'] = str(e)
                 return out
